@@ -8,7 +8,7 @@
                     closed, equal committed contents whose root is the root of those contents
    guard_free     : no operation of the history lies in a known-finding class (ModelGuards.v) *)
 From Common Require Import Bytes.
-From C08 Require Import ModelMap Model ModelSpec ModelGuards ProofsTx ProofsMain ProofsFull ProofsWitness.
+From C08 Require Import ModelMap Model ModelSpec ModelGuards ProofsTx ProofsMain ProofsFull ProofsCommit ProofsWitness.
 Local Open Scope N_scope.
 
 (* For every history of runtime storage operations on main and child storage (get, set, delete,
@@ -28,6 +28,26 @@ Theorem C08_rollback : forall cf body s, balanced 0 body = true ->
   snd (run cf (OStart :: body ++ [ORollback]) s) = s.
 Proof. exact rollback_exact. Qed.
 Print Assumptions C08_rollback.
+
+(* Committing the outermost transaction gives the same state (contents of main and child tries,
+   hence the same root) as applying the committed operations directly: from any state reached by
+   a guard-free history with all transactions closed, a well-nested history [ops] without limited
+   clears ends in exactly the state reached by running [f] = its committed operations (rolled-back
+   transactions dropped, markers removed; flattened ops = Some f also says that ops is well
+   nested and closes every transaction) outside any transaction.  (With a limit the statement
+   is false for Substrate itself: overlay keys do not count against the limit.) *)
+Theorem C08_commit : forall pre ops f, guard_free cfg_fixed pre = true ->
+  let s := snd (run cfg_fixed pre ts_init) in
+  ts_txs s = [] -> forallb limit_free_op ops = true -> flattened ops = Some f ->
+  snd (run cfg_fixed ops s) = snd (run cfg_fixed f s).
+Proof. exact commit_direct_reachable. Qed.
+Print Assumptions C08_commit.
+
+Example C08_commit_nonvacuous :
+  flattened [OStart; OPut k11 v1; OStart; ODel k11; OCSet k11 k22 va; ORollback; OStart;
+             OClearPrefix k11; OPut k22 v2; OCommit; OKill k11; OCommit] =
+  Some [OPut k11 v1; OClearPrefix k11; OPut k22 v2; OKill k11].
+Proof. reflexivity. Qed.
 
 (* non-vacuity: a guard-free history with nested transactions, a rollback, a key equal to a
    cleared prefix, a limited clear and next-key; the final contents are not empty *)
